@@ -16,7 +16,12 @@ Operation form (JSON; the Lean model `PyGqlModel/AsyncExec.lean` reads the same)
            ("ready": the pool runs the task at submission, the executor receives an ALREADY FINISHED future)
   ty     = {"t":"int"} (Int) | {"t":"int","scalar":"trim"} (custom scalar whose serialize() maps blank strings to None) | {"t":"nn","of":ty} | {"t":"list","of":ty} | {"t":"obj","fields":[{"key","mode","ty"} ...]}
   fo     = {"r":"rerr"} | {"r":"exc"} | {"r":"ok","v": rv}          (what the resolver of this field *instance* does)
-  rv     = null | int | "bad" | "tonull" (a NON-null resolver value that SERIALISES to null; only at trim leaves; the
+  "cerr" = COMPLETING the value raises ResolverError: at a trim leaf (serialize raises), at an abstract object position
+           (ty obj with "abstract": true is a Union whose resolve_type raises), or a lazy list {"lazy": [items], "fail": true}
+           (a generator that raises after its items). The field becomes null + one field error on every configuration.
+           Model: when no sub-resolver ran before the raise this is THE SAME EVENT as the resolver raising ResolverError
+           (field outcome `rerr`: same trace, same data, same error path/kind); otherwise the run is not compared with the model.
+  rv     = null | int | "bad" | "tonull" | "cerr" (a NON-null resolver value that SERIALISES to null; only at trim leaves; the
            model sees the completed value: null) | [rv ...] | {"<key>": fo ...}         (the resolved value, completed at `ty`)
 
 `ty` lives on the field *definition* (all instances under list items share it, like a schema);
@@ -106,6 +111,46 @@ class watchdog:
         return False
 
 
+def list_items(rv):
+    """items of a list value: a plain list or a lazy (generator-backed) one"""
+    return rv["lazy"] if isinstance(rv, dict) else rv
+
+
+def list_fails(rv):
+    return isinstance(rv, dict) and bool(rv.get("fail"))
+
+
+def completion_event(ty, rv):
+    """
+    What completing `rv` at `ty` does BEFORE returning, in completion order: (event, n, e) with event in
+    {None, "cerr", "bad"} (raises ResolverError / RuntimeError), n = number of sub-field resolvers invoked before it and
+    e = number of non-null violations recorded before it.
+    """
+    if ty["t"] == "nn":
+        ev, n, e = completion_event(ty["of"], rv)
+        if ev is None and (rv is None or rv == "tonull"):
+            e += 1
+        return ev, n, e
+    if rv is None or rv == "tonull":
+        return None, 0, 0
+    if rv == "cerr":
+        return "cerr", 0, 0
+    if rv == "bad":
+        return "bad", 0, 0
+    if ty["t"] == "int":
+        return None, 0, 0
+    if ty["t"] == "list":
+        n = e = 0
+        for x in list_items(rv):
+            ev, k, k2 = completion_event(ty["of"], x)
+            n += k
+            e += k2
+            if ev:
+                return ev, n, e
+        return ("cerr", n, e) if list_fails(rv) else (None, n, e)
+    return None, max(1, len(ty["fields"])), 0
+
+
 # ---------------------------------------------------------------------------
 # generators
 
@@ -116,6 +161,8 @@ def gen_ty(rng, depth, p):
     elif r < 0.8:
         n = rng.randint(1, p["max_sub"])
         base = {"t": "obj", "fields": [gen_fdef(rng, depth - 1, p, "abcdefgh"[i]) for i in range(n)]}
+        if rng.random() < p.get("p_abstract", 0.25):
+            base["abstract"] = True
     else:
         base = {"t": "list", "of": gen_ty(rng, depth - 1, p)}
     if rng.random() < p["p_nn"]:
@@ -146,11 +193,18 @@ def gen_rv(rng, ty, p):
             return "bad"
         if ty.get("scalar") == "trim" and rng.random() < p.get("p_tonull", 0.25):
             return "tonull"
+        if ty.get("scalar") == "trim" and rng.random() < p.get("p_cerr", 0.1):
+            return "cerr"
         return rng.randint(0, 9)
     if ty["t"] == "list":
         if rng.random() < p["p_bad"]:
             return "bad"
-        return [gen_rv(rng, ty["of"], p) for _ in range(rng.choice((0, 1, 1, 2, 2, 3)))]
+        items = [gen_rv(rng, ty["of"], p) for _ in range(rng.choice((0, 1, 1, 2, 2, 3)))]
+        if rng.random() < p.get("p_lazy", 0.25):
+            return {"lazy": items, "fail": rng.random() < 0.5}
+        return items
+    if ty.get("abstract") and rng.random() < p.get("p_cerr", 0.1):
+        return "cerr"
     return {f["key"]: gen_fo(rng, f["ty"], p) for f in ty["fields"]}
 
 
@@ -198,17 +252,29 @@ def to_model(case):
         if ty["t"] == "int":
             return {"t": "leaf", "v": rv}
         if ty["t"] == "list":
-            return {"t": "list", "items": [comp(ty["of"], x) for x in rv]}
+            return {"t": "list", "items": [comp(ty["of"], x) for x in list_items(rv)]}
         return {"t": "obj", "fields": [fld(f, rv[f["key"]]) for f in ty["fields"]]}
+
+    nomodel = [False]
 
     def fld(f, fo):
         if fo["r"] == "ok":
-            out = {"t": "ok", "c": comp(f["ty"], fo["v"])}
+            ev, n, e = completion_event(f["ty"], fo["v"])
+            if ev == "cerr" and n == 0 and e == 0:
+                out = {"t": "rerr"}            # completion failure before any side effect = the resolver-error event
+            elif ev == "cerr":
+                nomodel[0] = True              # sub-resolvers ran / errors were recorded before the raise: not expressible
+                out = {"t": "rerr"}
+            else:
+                out = {"t": "ok", "c": comp(f["ty"], fo["v"])}
         else:
             out = {"t": fo["r"]}
         return {"key": f["key"], "mode": f["mode"], "out": out}
 
-    return {"kind": case["kind"], "fields": [fld(f, f["out"]) for f in case["fields"]]}
+    m = {"kind": case["kind"], "fields": [fld(f, f["out"]) for f in case["fields"]]}
+    if nomodel[0]:
+        m["nomodel"] = True
+    return m
 
 
 def count_tasks(case):
@@ -216,10 +282,10 @@ def count_tasks(case):
     def c_rv(ty, rv):
         if ty["t"] == "nn":
             return c_rv(ty["of"], rv)
-        if rv is None or rv == "bad" or ty["t"] == "int":
+        if rv is None or rv in ("bad", "cerr") or ty["t"] == "int":
             return 0
         if ty["t"] == "list":
-            return sum(c_rv(ty["of"], x) for x in rv)
+            return sum(c_rv(ty["of"], x) for x in list_items(rv))
         return sum(c_f(f, rv[f["key"]]) for f in ty["fields"])
 
     def c_f(f, fo):
@@ -249,12 +315,19 @@ def features(case):
         if rv == "tonull":
             fs.add("tonull")
             return
+        if rv == "cerr":
+            fs.add("cerr-" + ("abstract" if ty["t"] == "obj" else "scalar"))
+            return
         if ty["t"] == "list":
             fs.add("list")
-            for x in rv:
+            if isinstance(rv, dict):
+                fs.add("lazy-list-fails" if rv.get("fail") else "lazy-list")
+            for x in list_items(rv):
                 w_rv(ty["of"], x, under + ["[]"])
         elif ty["t"] == "obj":
             fs.add("obj")
+            if ty.get("abstract"):
+                fs.add("abstract")
             for f in ty["fields"]:
                 w_f(f, rv[f["key"]], under)
 
@@ -264,6 +337,9 @@ def features(case):
         if under:
             fs.add("nested-" + f["mode"])
         if fo["r"] == "ok":
+            ev, n, e = completion_event(f["ty"], fo["v"])
+            if ev == "cerr" and n > 0:
+                fs.add("completion-raises-after-sub-resolvers")
             w_rv(f["ty"], fo["v"], under + [f["key"]])
 
     for f in case["fields"]:
@@ -282,16 +358,23 @@ def has_unexpected(case):
 # ---------------------------------------------------------------------------
 # building the real schema / document
 
-def _ty_doc(ty):
+def _tname(keys):
+    return "T_" + "_".join(keys)
+
+
+def _ty_doc(ty, keys):
     while ty["t"] in ("nn", "list"):
         ty = ty["of"]
     if ty["t"] == "obj":
-        return " { " + " ".join(f["key"] + _ty_doc(f["ty"]) for f in ty["fields"]) + " }"
+        inner = " ".join(f["key"] + _ty_doc(f["ty"], keys + (f["key"],)) for f in ty["fields"])
+        if ty.get("abstract"):
+            return " { ... on %s { %s } }" % (_tname(keys), inner)
+        return " { " + inner + " }"
     return ""
 
 
 def document(case):
-    body = " ".join(f["key"] + _ty_doc(f["ty"]) for f in case["fields"])
+    body = " ".join(f["key"] + _ty_doc(f["ty"], (f["key"],)) for f in case["fields"])
     op = "mutation" if case["kind"] == "mutation" else "query"
     root = "Mutation" if case["kind"] == "mutation" else "Query"
     style = case.get("style", "plain")
@@ -321,6 +404,8 @@ def trim_scalar():
         from py_gql.schema import ScalarType
 
         def serialize(v):
+            if v == "cerr!":
+                raise _resolver_error_cls()("Trimmed refuses %r" % (v,))
             if isinstance(v, str) and not v.strip():
                 return None
             if isinstance(v, int) and not isinstance(v, bool):
@@ -331,26 +416,38 @@ def trim_scalar():
     return _TRIM
 
 
-def build_schema(case, all_explicit=False):
-    from py_gql.schema import Field, Int, ListType, NonNullType, ObjectType, Schema
-    counter = itertools.count()
+class CerrMarker:
+    """an object value whose abstract type cannot be resolved: `resolve_type` raises ResolverError for it"""
 
-    def mk_ty(ty):
+
+def build_schema(case, all_explicit=False):
+    from py_gql.schema import Field, Int, ListType, NonNullType, ObjectType, Schema, UnionType
+
+    def mk_ty(ty, keys):
         if ty["t"] == "int":
             return trim_scalar() if ty.get("scalar") == "trim" else Int
         if ty["t"] == "nn":
-            return NonNullType(mk_ty(ty["of"]))
+            return NonNullType(mk_ty(ty["of"], keys))
         if ty["t"] == "list":
-            return ListType(mk_ty(ty["of"]))
-        return ObjectType("T%d" % next(counter), [mk_field(f) for f in ty["fields"]])
+            return ListType(mk_ty(ty["of"], keys))
+        obj = ObjectType(_tname(keys), [mk_field(f, keys + (f["key"],)) for f in ty["fields"]])
+        if not ty.get("abstract"):
+            return obj
+        name = obj.name
+
+        def resolve_type(value, ctx, info):
+            if isinstance(value, CerrMarker):
+                raise _resolver_error_cls()("cannot resolve the type of %r" % (value,))
+            return name
+        return UnionType("U_" + "_".join(keys), [obj], resolve_type=resolve_type)
 
     methods = case.get("serve") == "methods"
 
-    def mk_field(f):
+    def mk_field(f, keys):
         explicit = (all_explicit or f["mode"] != "sync") and not methods
-        return Field(f["key"], mk_ty(f["ty"]), resolver=r_explicit if explicit else None)
+        return Field(f["key"], mk_ty(f["ty"], keys), resolver=r_explicit if explicit else None)
 
-    root_fields = [mk_field(f) for f in case["fields"]]
+    root_fields = [mk_field(f, (f["key"],)) for f in case["fields"]]
     if case["kind"] == "mutation":
         schema = Schema(query_type=ObjectType("Query", [Field("dummy", Int)]),
                         mutation_type=ObjectType("Mutation", root_fields))
@@ -383,10 +480,10 @@ def outcome_table(case):
     def w_rv(ty, rv, path):
         if ty["t"] == "nn":
             return w_rv(ty["of"], rv, path)
-        if rv is None or rv == "bad" or ty["t"] == "int":
+        if rv is None or rv in ("bad", "cerr") or ty["t"] == "int":
             return
         if ty["t"] == "list":
-            for i, x in enumerate(rv):
+            for i, x in enumerate(list_items(rv)):
                 w_rv(ty["of"], x, path + (i,))
         else:
             for f in ty["fields"]:
@@ -412,11 +509,26 @@ def py_value(ty, rv):
         return "not-an-int" if ty["t"] == "int" else 7
     if rv == "tonull":
         return "   "
+    if rv == "cerr":
+        return "cerr!" if ty["t"] == "int" else CerrMarker()
     if ty["t"] == "int":
         return rv
     if ty["t"] == "list":
-        return [py_value(ty["of"], x) for x in rv]
+        return lazy_or_list([py_value(ty["of"], x) for x in list_items(rv)], rv)
     return {"__obj__": True}
+
+
+def lazy_or_list(items, rv):
+    """a plain list, or — for {"lazy": …} — a generator that yields the items and then possibly raises ResolverError"""
+    if not isinstance(rv, dict):
+        return items
+
+    def gen():
+        for x in items:
+            yield x
+        if rv.get("fail"):
+            raise _resolver_error_cls()("the lazy iterable failed after %d items" % len(items))
+    return gen()
 
 
 # ---------------------------------------------------------------------------
@@ -444,10 +556,10 @@ class World:
         """in `methods` mode object values are instances whose methods serve the sub-fields"""
         if ty["t"] == "nn":
             return self.objectify(ty["of"], rv, path)
-        if rv is None or rv in ("bad", "tonull") or ty["t"] == "int":
+        if rv is None or rv in ("bad", "tonull", "cerr") or ty["t"] == "int":
             return py_value(ty, rv)
         if ty["t"] == "list":
-            return [self.objectify(ty["of"], x, path + (i,)) for i, x in enumerate(rv)]
+            return lazy_or_list([self.objectify(ty["of"], x, path + (i,)) for i, x in enumerate(list_items(rv))], rv)
         return MethodObj(self, path)
 
     # events -----------------------------------------------------------
@@ -970,6 +1082,14 @@ def shrink(case, still_fails, budget=150, seconds=6.0):
         if v is None:
             return
         yield ty, None
+        if v in ("cerr", "tonull", "bad"):
+            return
+        if ty["t"] == "list" and isinstance(v, dict):
+            items = v["lazy"]
+            yield ty, items                                  # not lazy any more
+            for i in range(len(items)):
+                yield ty, dict(v, lazy=items[:i] + items[i + 1:])
+            return
         if ty["t"] == "list" and v != "bad":
             for i in range(len(v)):
                 yield ty, v[:i] + v[i + 1:]
@@ -982,14 +1102,16 @@ def shrink(case, still_fails, budget=150, seconds=6.0):
                 yield ty["of"], v[0]
         if ty["t"] == "obj":
             fl = ty["fields"]
+            if ty.get("abstract"):
+                yield {k: x for k, x in ty.items() if k != "abstract"}, v
             for i in range(len(fl)):
                 if len(fl) > 1:
-                    t2 = {"t": "obj", "fields": fl[:i] + fl[i + 1:]}
+                    t2 = dict(ty, fields=fl[:i] + fl[i + 1:])
                     yield t2, {k: x for k, x in v.items() if k != fl[i]["key"]}
             for i, fd in enumerate(fl):
                 for g in simplify_field(dict(fd, out=v[fd["key"]])):
                     fd2 = {"key": g["key"], "mode": g["mode"], "ty": g["ty"]}
-                    yield {"t": "obj", "fields": fl[:i] + [fd2] + fl[i + 1:]}, dict(v, **{fd["key"]: g["out"]})
+                    yield dict(ty, fields=fl[:i] + [fd2] + fl[i + 1:]), dict(v, **{fd["key"]: g["out"]})
 
     cur = case
     progress = True
@@ -1016,9 +1138,13 @@ def well_typed(case):
             return ty["t"] in ("int", "list")
         if rv == "tonull":
             return ty["t"] == "int" and ty.get("scalar") == "trim"
+        if rv == "cerr":
+            return (ty["t"] == "int" and ty.get("scalar") == "trim") or (ty["t"] == "obj" and bool(ty.get("abstract")))
         if ty["t"] == "int":
             return isinstance(rv, int)
         if ty["t"] == "list":
+            if isinstance(rv, dict):
+                return set(rv) <= {"lazy", "fail"} and isinstance(rv.get("lazy"), list) and all(ok_rv(ty["of"], x) for x in rv["lazy"])
             return isinstance(rv, list) and all(ok_rv(ty["of"], x) for x in rv)
         return isinstance(rv, dict) and set(rv) == {f["key"] for f in ty["fields"]} and all(
             ok_fo(f["ty"], rv[f["key"]]) for f in ty["fields"])
